@@ -473,6 +473,88 @@ func judgeLife(c *Ctx, hin map[string]string, o *lifeObs, prev *lifeObs) {
 	}
 }
 
+// modelReplay: synthesise, from what was observed, a canonical schedule of the lifecycle model that
+// explains it (every handled event was sent, read and taken; then the terminating cause; then the loops
+// wind down) and run it on the Lean model: the model must accept the schedule and end with the same
+// return value class, lifecycle events and ERROR delivery as the real client.
+func modelReplay(c *Ctx, hin map[string]string, o *lifeObs) {
+	var toks []string
+	errDelivered := false
+	var errText string
+	n := 0
+	for _, l := range o.Delivered {
+		if strings.HasPrefix(l, "CLIENT_") {
+			continue
+		}
+		if strings.HasPrefix(l, "ERROR") {
+			if e := girc.ParseEvent(l); e != nil {
+				errText = e.Last()
+			}
+			if !errDelivered {
+				toks = append(toks, "pe"+hx(errText), "rt", "et")
+				errDelivered = true
+				n++
+				continue
+			}
+		}
+		if errDelivered {
+			break // nothing is taken by execLoop after an ERROR
+		}
+		toks = append(toks, fmt.Sprintf("ps%d", n), "rt", "et")
+		n++
+	}
+	execRunning := !errDelivered
+	wind := func(sendRunning bool) {
+		toks = append(toks, "rc")
+		if execRunning {
+			toks = append(toks, "ef")
+		}
+		if sendRunning {
+			toks = append(toks, "sc")
+		}
+		toks = append(toks, "pn", "mw")
+	}
+	want := ""
+	switch {
+	case o.Ret == "nil":
+		if o.QuitWritten {
+			toks = append(toks, "uq", "st")
+			wind(false)
+		} else {
+			toks = append(toks, "uc")
+			wind(true)
+		}
+		toks = append(toks, "mc", "mt", "md", "mf")
+		want = "res=nil emitted=C,D"
+	case strings.HasPrefix(o.Ret, "errevent:"):
+		toks = append(toks, "pc")
+		wind(true)
+		toks = append(toks, "mt", "md", "mf")
+		want = "res=errevent:" + hx(strings.TrimPrefix(o.Ret, "errevent:")) + " emitted=D"
+	default: // an I/O error
+		toks = append(toks, "pc", "re")
+		if execRunning {
+			toks = append(toks, "ef")
+		}
+		toks = append(toks, "sc", "pn", "mw", "mt", "md", "mf")
+		want = "res=io emitted=D"
+	}
+	resp := c.L.Call("life.run", strings.Join(toks, ","))
+	var lc []string
+	for _, l := range o.Lifecycle {
+		switch l {
+		case girc.CLOSED:
+			lc = append(lc, "C")
+		case girc.DISCONNECTED:
+			lc = append(lc, "D")
+		}
+	}
+	obs := strings.SplitN(want, " ", 2)[0] + " emitted=" + strings.Join(lc, ",")
+	if !strings.HasPrefix(resp, obs+" ") {
+		c.R.Mismatch("life.model", hin, lifeSummary(o)+" => observed "+obs, resp+" for schedule "+strings.Join(toks, ","))
+	}
+}
+
 func firstDiffIdx(a, b []string) int {
 	for i := 0; i < len(a) && i < len(b); i++ {
 		if a[i] != b[i] {
@@ -527,6 +609,9 @@ func init() {
 		for i := range terms {
 			o := lc.runLifeConn(i, terms[i], places[i], peers[i], c.Rng)
 			judgeLife(c, hin, o, prev)
+			if o.Ret != "timeout" {
+				modelReplay(c, hin, o)
+			}
 			c.R.Count(fmt.Sprintf("%s/%s/%s/%d", terms[i], places[i], peers[i], i), true, "term="+terms[i], "place="+places[i], "ret="+strings.SplitN(o.Ret, ":", 2)[0])
 			if o.Ret == "timeout" {
 				return
